@@ -12,7 +12,7 @@ from mc.ref import cheader, ilog as rilog
 PROPERTY = 'C14'
 LEVEL = 'exploration'
 ENGINE = 'E1'
-TECHNIQUE = ('bounded-exhaustive enumeration: all PTE tables of <= 2 (thorough 3) entries over a 12-entry overlapping-pattern '
+TECHNIQUE = ('bounded-exhaustive enumeration: all PTE tables of <= 2 (thorough 3) entries over a 14-entry overlapping-pattern '
              'alphabet x a 336-entry ILOG alphabet (timestamps x sequence numbers x PTEs around every pattern boundary), '
              'zero entries and trailing partial lengths; both shipped tables with every wildcard fill in a 7-value alphabet x '
              'reported-bit x error-nibble variants and all one-nibble near misses; real parse_ilog_data vs. an independent '
@@ -24,7 +24,7 @@ LEVEL_TEXT = ('The decoder is compared line by line with a reference decoder wri
               'one-nibble deviation, and the table as read by the repository is compared with an independent scan.')
 LEVEL_NOTE = ('PTE values outside the derived alphabets, multi-digit parameter numbers and header syntax beyond the shipped '
               'style are not explored; CPython %-formatting trusted; whether "Undefined" gets the reported suffix is not constrained')
-RULE = ('synthetic: tables = all sequences of length 0..2 (quick) / 0..3 (thorough) over 12 (pattern, message, params) entries, '
+RULE = ('synthetic: tables = all sequences of length 0..2 (quick) / 0..3 (thorough) over 14 (pattern, message, params) entries, '
         'each in 2 syntax variants; data = blob of all 336 alphabet entries, the reversed blob with all-zero entries '
         'interleaved, each with trailing partial lengths 0..7. shipped: per table entry, wildcard runs filled jointly with '
         '{0,1,4,5,9,A,F} x reported bit {as is,set,clear} x top nibble {as is,E}; literal patterns x 8 positions x 2 '
@@ -45,6 +45,8 @@ ALPHA = [
     ('0101****', 'arity mismatch %d %d', [3]),
     ('0101**00', 'param zero and five %d', [0, 5, 4]),
     ('E1040000', '   padded message   ', []),
+    ('E20*0190', 'VRM %d fault, rail %d', [3]),
+    ('E3******', 'no conversion but a parameter', [4]),
 ]
 TS = [0, 1, 3599, 3600, 65534, 65535]
 SEQ = [0, 0xBEEF]
@@ -57,7 +59,7 @@ def pte_alphabet():
             for n3 in (0, 4, 5):
                 for n7 in (0, 1):
                     out.append((n0 << 28) | (n1 << 24) | (n3 << 16) | n7)
-    out += [0x01004142, 0x01014142, 0x0101FF00, 0xFFFFFFFF, 0x00000000, 0xE1040000, 0xE1000000, 0xE0041234, 0xF0040000]
+    out += [0x01004142, 0x01014142, 0x0101FF00, 0xFFFFFFFF, 0x00000000, 0xE1040000, 0xE1000000, 0xE0041234, 0xF0040000, 0xE20C0190, 0xE2080190, 0xE30C7704, 0xE3087704]
     return out
 
 
